@@ -1,0 +1,33 @@
+//! Verification hooks (feature `verif-hooks`, off by default): numbered crash
+//! points around the freezer's file writes. `VERIF_FREEZER_CRASH_AT=<n>`
+//! aborts the process at the n-th point, `VERIF_FREEZER_CRASH_LOG=<file>`
+//! records every point reached.
+use std::io::Write;
+use std::sync::OnceLock;
+use std::sync::atomic::{AtomicU64, Ordering};
+
+static COUNTER: AtomicU64 = AtomicU64::new(0);
+static CRASH_AT: OnceLock<Option<u64>> = OnceLock::new();
+static LOG: OnceLock<Option<String>> = OnceLock::new();
+
+/// A numbered crash point.
+pub fn point(label: &'static str) {
+    let n = COUNTER.fetch_add(1, Ordering::SeqCst) + 1;
+    let log = LOG.get_or_init(|| std::env::var("VERIF_FREEZER_CRASH_LOG").ok());
+    if let Some(path) = log
+        && let Ok(mut f) = std::fs::OpenOptions::new()
+            .create(true)
+            .append(true)
+            .open(path)
+    {
+        let _ = writeln!(f, "{n} {label}");
+    }
+    let at = CRASH_AT.get_or_init(|| {
+        std::env::var("VERIF_FREEZER_CRASH_AT")
+            .ok()
+            .and_then(|s| s.parse().ok())
+    });
+    if *at == Some(n) {
+        std::process::abort();
+    }
+}
